@@ -24,9 +24,15 @@ Inductive exn :=
 | EWorker (e : Z)        (* the exception the function raised, re-raised in the parent *)
 | EPickle                (* the return value could not be pickled (AttributeError/PicklingError/TypeError) *)
 | ESysExit (n : Z)       (* SystemExit raised by the function: sent back like any exception *)
-| EKeyboardInt.          (* KeyboardInterrupt raised inside the function by SIGINT *)
+| EKeyboardInt           (* KeyboardInterrupt raised inside the function by SIGINT *)
+| EAioCancelled (e : Z). (* asyncio.CancelledError carrying the args of a concurrent.futures.CancelledError
+                            raised by the function (asyncio.futures._convert_future_exc changes the class) *)
 
-Inductive answer := AValue (v : Z) | ARaise (e : exn).
+Inductive answer :=
+| AValue (v : Z) | ARaise (e : exn)
+| ANever.     (* the asyncio future wrapping the executor's future is never resolved: the function raised
+                 StopIteration and Future.set_exception refuses it (TypeError inside the
+                 _chain_future._set_state callback, reported to the loop's exception handler only) *)
 
 (** One further fact about the environment matters as soon as the worker LOGS while
     log collection is on (found by the matrix, see harness/props/c17.py; recorded as
@@ -135,7 +141,8 @@ Definition emit (s : st) (l : list ev) : st := mkSt (trace s ++ l) (ret s) (exc 
 Inductive hang_stage :=
 | HShutdown      (* blocked for ever in the executor's shutdown (cannot happen in this model any more;
                     kept so that such an observation is expressible and disagrees) *)
-| HListener.     (* `await task` in MultiprocessingLogging's finally never completes *)
+| HListener      (* `await task` in MultiprocessingLogging's finally never completes *)
+| HFuture.       (* `ret = await future` never completes *)
 
 Inductive completion := CNormal | CRaise (e : exn) | CReturn | CHang (h : hang_stage).
 
@@ -161,6 +168,7 @@ Definition do_action (w : world) (a : action) (s : st) : completion * st :=
       match ans w with
       | AValue v => (CNormal, mkSt (trace s') (Some v) (exc s') (stack s') (cur s'))
       | ARaise e => (CRaise e, s')
+      | ANever => (CHang HFuture, s')
       end
   | StoreExc => (CNormal, mkSt (trace s) (ret s) (cur s) (stack s) (cur s))
   | Pass => (CNormal, s)
@@ -328,8 +336,19 @@ Definition joined (l : list ev) : bool :=
 (** ---- the worker side: behaviours, signals and which answers they allow *)
 Inductive sigk := SInt | STerm | SKill.
 
+(** exception classes the transport between the two processes does not carry faithfully
+    (known findings of C17, read from the matrix) *)
+Inductive oddkind :=
+| OStopIteration     (* StopIteration: cannot be put into an asyncio Future *)
+| OCfCancelled       (* concurrent.futures.CancelledError: converted to asyncio.CancelledError *)
+| OUnloadable.       (* pickles in the child, cannot be rebuilt in the parent: the pool breaks, the worker is terminated *)
+
 Inductive behaviour :=
-| Ret (v : Z) | Exn (e : Z) | Unpicklable | SysExit (n : Z) | HardExit (n : Z).
+| Ret (v : Z)
+| Exn (e : Z)          (* raises an exception of any class that travels faithfully *)
+| ExnOdd (k : oddkind) (e : Z)
+| Unpicklable          (* the return value -- or the exception raised -- cannot be pickled in the child *)
+| SysExit (n : Z) | HardExit (n : Z).
 
 Inductive instant :=
 | Boot       (* the signal arrives before the function starts (interpreter boot, initializer, queue wait) *)
@@ -344,6 +363,9 @@ Definition natural (b : behaviour) : answer :=
   match b with
   | Ret v => AValue v
   | Exn e => ARaise (EWorker e)
+  | ExnOdd OStopIteration _ => ANever
+  | ExnOdd OCfCancelled e => ARaise (EAioCancelled e)
+  | ExnOdd OUnloadable _ => ARaise EBrokenPool
   | Unpicklable => ARaise EPickle
   | SysExit n => ARaise (ESysExit n)
   | HardExit _ => ARaise EBrokenPool
@@ -364,6 +386,8 @@ Definition answer_eqb (a b : answer) : bool :=
   | ARaise EPickle, ARaise EPickle => true
   | ARaise (ESysExit x), ARaise (ESysExit y) => Z.eqb x y
   | ARaise EKeyboardInt, ARaise EKeyboardInt => true
+  | ARaise (EAioCancelled x), ARaise (EAioCancelled y) => Z.eqb x y
+  | ANever, ANever => true
   | _, _ => false
   end.
 
@@ -383,6 +407,7 @@ Definition signum (s : sigk) : Z := match s with SInt => 2 | STerm => 15 | SKill
 Definition exit_code (sc : scenario) (a : answer) : option Z :=
   match sc with
   | (HardExit n, None) => Some (n mod 256)
+  | (ExnOdd OUnloadable _, None) => Some (-15)    (* the executor terminates the worker of a broken pool *)
   | (_, None) => Some 0
   | (_, Some (SInt, Running)) => Some 0          (* the worker survives the KeyboardInterrupt *)
   | (_, Some (SInt, _)) => None
@@ -430,10 +455,11 @@ Definition sig_of (m : method) : sigk :=
 
 (** ---- correspondence with the real runs (harness/props/c17.py writes [cases]) *)
 Inductive shape := ShValue | ShExn (k : Z) | ShNeither | ShBoth.
-(* exception kinds: 1 worker's own, 2 pickling, 3 SystemExit, 4 KeyboardInterrupt, 0 other *)
+(* exception kinds: 1 worker's own, 2 pickling, 3 SystemExit, 4 KeyboardInterrupt,
+   5 asyncio.CancelledError in place of a concurrent.futures.CancelledError, 0 other *)
 
 Definition exn_kind (e : exn) : Z :=
-  match e with EWorker _ => 1 | EPickle => 2 | ESysExit _ => 3 | EKeyboardInt => 4 | EBrokenPool => 0 end.
+  match e with EWorker _ => 1 | EPickle => 2 | ESysExit _ => 3 | EKeyboardInt => 4 | EAioCancelled _ => 5 | EBrokenPool => 0 end.
 
 Definition shape_of (x : exited) : shape :=
   match returned x, raised x with
@@ -461,10 +487,11 @@ Record obs := mkObs {
   o_tasks_left : nat;         (* helper tasks still pending *)
   o_listener : bool;          (* a log listener task was seen while the function ran *)
   o_hang : Z                  (* 0: the handle was awaited; 1: blocked for ever in the executor's shutdown;
-                                 2: idle for ever with the listener task pending; 3: stuck elsewhere *)
+                                 2: idle for ever with the listener task pending; 4: `_run` suspended for ever at `await future`;
+                                 3: stuck elsewhere *)
 }.
 
-Definition hang_code (h : hang_stage) : Z := match h with HShutdown => 1 | HListener => 2 end.
+Definition hang_code (h : hang_stage) : Z := match h with HShutdown => 1 | HListener => 2 | HFuture => 4 end.
 
 Definition opt_eqb (a b : option Z) : bool :=
   match a, b with Some x, Some y => Z.eqb x y | None, None => true | _, _ => false end.
